@@ -56,12 +56,21 @@ def make_jobs(rng, table, n):
     jobs = []
     # deeply nested inputs, far from the interpreter's recursion limit on either side: they either translate
     # (depth <= 800) or raise RecursionError (depth >= 2600, known findings F5/F9) - alone and concurrently alike
-    for d in rng.sample([300, 600, 760, 800, 2600, 3000], 3):
-        jobs.append(["e", "C(" * d + "F" + ")F" * d, {"strict": False}])
-        if d <= 800:
-            jobs.append(["d", "[S][Branch1][P]" * min(d, 700) + "[C]", {}])
+    deep = []
+    if rng.random() < 0.5:
+        for d in (rng.choice([300, 600, 760, 800]), rng.choice([760, 800]), rng.choice([2600, 3000])):
+            deep.append(["e", "C(" * d + "F" + ")F" * d, {"strict": False}])
+        deep.append(["d", "[S][Branch1][P]" * rng.choice([300, 700]) + "[C]", {}])
     for i in range(n):
         x = rng.random()
+        if x < 0.15:
+            # a burst of never-seen symbols: every one is a miss (and a write) in the symbol memo of whichever thread gets it
+            syms = ["[%d%s%s]" % (rng.randint(1, 99999), rng.choice(["C", "N", "O", "S", "P", "Si", "Fe"]), rng.choice(["", "", "H1", "+1", "-1"]))
+                    for _ in range(rng.choice([10, 25, 40]))]
+            for k in range(0, len(syms), 4):
+                syms.insert(k, rng.choice(["[Branch1]", "[Ring1]", "[=Branch1]"]))
+            jobs.append(["d", "".join(syms), {"attribute": rng.random() < 0.2}])
+            continue
         if x < 0.5:
             s = g.string(rng.choice([1, 2]), rng.choice([10, 40]))
             toks = tokens_with_dots(s)
@@ -89,7 +98,8 @@ def make_jobs(rng, table, n):
             m, _, _ = standard_system(rng, nrings=rng.choice([4, 5, 6, 8, 10]), sizes=(6,), chords=0)
             for k in range(rng.choice([1, 2, 3])):
                 jobs.append(["e", ".".join(spell(m, rng)[0] for _ in range(rng.choice([1, 3]))), {"strict": False}])
-    return jobs
+    n_normal = len(jobs)
+    return jobs + deep, n_normal
 
 
 def run(ctx):
@@ -106,8 +116,8 @@ def run(ctx):
             table = sf.get_semantic_constraints()
             nth = rng.choice([2, 4, 8, 16])
             ctx.see("thread_counts", nth)
-            jobs = make_jobs(rng, table, rng.choice([120, 200]))
-            hot = list(range(0, len(jobs), 7))
+            jobs, n_normal = make_jobs(rng, table, rng.choice([120, 200]))
+            hot = list(range(0, n_normal, 7))      # the (expensive) deep jobs run once each, not in every thread
             inject = (rnd % 2 == 1)
             results = [None] * len(jobs)
             hot_results = [[] for _ in jobs]
